@@ -544,8 +544,10 @@ Fixpoint write_runes (p : pos) (rs : list drune) : pos :=
       if N.eqb c 10 then write_runes (Pos b (p_line p + 1) 0) rest
       else if N.eqb c 13 then
         match rest with
-        | (10%N, n2) :: rest2 => write_runes (Pos (b + N.of_nat n2) (p_line p + 1) 0) rest2
-        | _ => write_runes (Pos b (p_line p) (p_col p)) rest
+        | (c2, n2) :: rest2 =>
+            if N.eqb c2 10 then write_runes (Pos (b + N.of_nat n2) (p_line p + 1) 0) rest2
+            else write_runes (Pos b (p_line p) (p_col p)) rest
+        | [] => write_runes (Pos b (p_line p) (p_col p)) rest
         end
       else write_runes (Pos b (p_line p) (p_col p + 1)) rest
   end.
@@ -569,4 +571,11 @@ Fixpoint ranges (p : pos) (tr : list cev) : list (pos * pos) * pos :=
       let '(from, until, p') := term_range p ps None p in
       let '(l, pe) := ranges p' tr' in
       ((match from with Some f => f | None => p end, until) :: l, pe)
+  end.
+
+(* the ranges of the statements of a document: the position runs on from statement to statement *)
+Fixpoint stmt_ranges (p : pos) (l : list stmt) : list (list (pos * pos)) :=
+  match l with
+  | [] => []
+  | s :: l' => let '(rs, p') := ranges p (st_trace s) in rs :: stmt_ranges p' l'
   end.
